@@ -225,27 +225,40 @@ class C15(Check):
         return cmds
 
     def flush(self, R, bad, points, extra):
-        """bad: {(what, route): {point index: detail}} -> minimal points."""
-        for (what, route), byp in sorted(bad.items()):
+        """bad: {(what, route): {point index: detail}}.  One violation per
+        `what` and minimal option point; routes showing the same thing at the
+        same point are merged into one signature."""
+        merged = {}
+        for (what, route), byp in bad.items():
+            for i, d in byp.items():
+                m = merged.setdefault(what, {}).setdefault(
+                    i, {'routes': [], 'detail': d})
+                m['routes'].append(route)
+        for what in sorted(merged):
+            byp = merged[what]
             for i in sorted(byp):
                 if points is not None and any(
                         j != i and points[j] != points[i]
                         and TA.is_subpoint(points[j], points[i])
                         for j in byp):
                     continue
-                label = TA.option_label(points[i]) if points is not None \
-                    else 'n/a'
+                routes = '+'.join(sorted(byp[i]['routes']))
                 d = dict(extra)
-                d.update(byp[i])
-                d['entry'] = route
+                d.update(byp[i]['detail'])
+                d['entry'] = routes
                 if points is not None:
                     d['options'] = dict(
                         (k, v) for k, v in points[i].items()
                         if v != TA.DEFAULT_POINT[k])
                 d['other_option_points_in_this_case'] = len(byp) - 1
-                R.viol('%s:%s:%s' % (what, label, route),
-                       what.split(':')[0], d,
-                       sub={'point': i, 'entry': route})
+                if points is None or what.startswith('raw-actual'):
+                    # the cause is in the name; the options are incidental
+                    sig = '%s:%s' % (what, routes)
+                else:
+                    sig = '%s:%s:%s' % (what, TA.option_label(points[i]),
+                                        routes)
+                R.viol(sig, what.split(':')[0], d,
+                       sub={'point': i, 'entry': routes})
 
     # ------------------------------------------------------------- run_case
     def run_case(self, case):
@@ -455,8 +468,8 @@ class C15(Check):
                     causes.add('empty-line')
                 else:
                     causes.add('other-lines')
-            add('raw-actual-lines-dropped:%s' % '+'.join(sorted(causes)),
-                detail)
+            for cause in sorted(causes):
+                add('raw-actual-lines-dropped:%s' % cause, detail)
         else:
             add('raw-actual-different-content', detail)
 
